@@ -160,7 +160,7 @@ impl Prop for C15 {
         true
     }
     fn rule(&self) -> String {
-        "cases = (Rust integer type in {u8,i8,u16,i16,u32,i32,u64,i64,usize,isize} or generic Value::Int/UInt) x (column type in {TINY,SHORT,YEAR,INT24,LONG,LONGLONG} x {signed,unsigned}) (optionally with other column flag bits such as ZEROFILL or BINARY set, which must not matter) x a set of values: ALL values for 8- and 16-bit types (enumerated, exhaustive), all 2^k, 2^k+-1, -(2^k)+-1 and range bounds for wider types (enumerated), plus random wide values. Every other value of a set is first written to a writer that breaks after 0-2 bytes (text and binary encoders), and the next value written to a healthy writer on the same thread must be exactly itself (no encoder state survives a failed write). Each value goes through the public encoder to_mysql_bin; oracle: Ok => bytes decoded at the column's wire width and signedness equal the value as a mathematical integer; it must be accepted when the column's range contains the whole fixed-width Rust type (for usize/isize: the value); otherwise any refusal is fine. A sample additionally travels through a real binary resultset, as the second cell of a two-column row next to a column of the opposite signedness, written both column-by-column and as write_col + write_row. Enumerated (and 1 in 4000 generated) cases send the accepted values, in the text and in the binary protocol, as the cells that follow a byte string filling the row up to d bytes from the 2^24-1-byte packet boundary (d = -70..1), so that integer encodings start before, on and after the boundary and straddle it. Non-trivial = the value set contains a value the column cannot represent, or a value outside i8's range.".into()
+        "cases = (Rust integer type in {u8,i8,u16,i16,u32,i32,u64,i64,usize,isize} or generic Value::Int/UInt) x (column type in {TINY,SHORT,YEAR,INT24,LONG,LONGLONG} x {signed,unsigned}) (optionally with other column flag bits such as ZEROFILL or BINARY set, which must not matter) x a set of values: ALL values for 8- and 16-bit types (enumerated, exhaustive), all 2^k, 2^k+-1, -(2^k)+-1 and range bounds for wider types (enumerated), plus random wide values. Every other value of a set is first written to a writer that breaks after 0-2 bytes (text and binary encoders), and the next value written to a healthy writer on the same thread must be exactly itself (no encoder state survives a failed write). Each value goes through the public encoder to_mysql_bin; oracle: Ok => bytes decoded at the column's wire width and signedness equal the value as a mathematical integer; it must be accepted when the column's range contains the whole fixed-width Rust type (for usize/isize: the value); otherwise any refusal is fine. A sample additionally travels through a real binary resultset, as the second cell of a two-column row next to a column of the opposite signedness, written both column-by-column and as write_col + write_row; every third such resultset follows, in the same reply, a nine-column resultset whose last row the shim gave up when its first value (NULL for a NOT NULL column) was refused. Enumerated (and 1 in 4000 generated) cases send the accepted values, in the text and in the binary protocol, as the cells that follow a byte string filling the row up to d bytes from the 2^24-1-byte packet boundary (d = -70..1), so that integer encodings start before, on and after the boundary and straddle it. Non-trivial = the value set contains a value the column cannot represent, or a value outside i8's range.".into()
     }
     fn assumptions(&self) -> Vec<String> {
         vec!["a deliberate assert! panic of the encoder counts as a refusal (nothing is sent)".into()]
@@ -321,15 +321,27 @@ impl Prop for C15 {
                 let first = if other.unsigned() { Val::plain(Base::U8(1)) } else { Val::plain(Base::I8(-1)) };
                 let first = if matches!(single_write(&first, &other).0, Ok(Ok(_))) { first } else { Val { base: Base::U8(0), wrap: Wrap::None } };
                 let rows = vec![RowProg { cells: vec![first, Val::plain(base.clone())], form, offers: vec![] }];
+                let mut steps = vec![Step::Set { cols: vec![other.clone(), col.clone()], rows, end: SetEnd::Finish }];
+                if k % 3 == 2 {
+                    // the connection's history: just before, a wider resultset (two bitmap bytes) whose
+                    // last row the shim gave up when its first value (NULL for a NOT NULL column) was
+                    // refused - nothing of that row may show in what comes next
+                    let wide: Vec<ColSpec> = (0..9).map(|i| ColSpec { table: "w".into(), name: format!("w{}", i), coltype: T_LONG, flags: FLAG_NOT_NULL }).collect();
+                    let full = RowProg { cells: (0..9).map(|i| Val::plain(Base::I32(i))).collect(), form: RowForm::WriteRow, offers: vec![] };
+                    let given_up = RowProg { cells: vec![], form: RowForm::ColsOpen, offers: vec![(0, Val { base: Base::I32(0), wrap: Wrap::None })] };
+                    steps.insert(0, Step::Set { cols: wide, rows: vec![full, given_up], end: SetEnd::FinishOne });
+                    ex.class("wire-sample-after-a-wider-set-with-a-row-given-up");
+                }
                 let mut conv = Conversation::new(
                     vec![Cmd::Prepare { text: Blob::text("p") }, Cmd::Execute { id: 1, params: vec![], send_types: false, flags: 0, iterations: 1 }],
-                    vec![
-                        Action::Prepare(PrepProg::Reply { id: 1, params: vec![], cols: vec![] }),
-                        Action::Result(Program { steps: vec![Step::Set { cols: vec![other.clone(), col.clone()], rows, end: SetEnd::Finish }] }),
-                    ],
+                    vec![Action::Prepare(PrepProg::Reply { id: 1, params: vec![], cols: vec![] }), Action::Result(Program { steps })],
                 );
                 conv.forget_on_refusal = true;
                 let o = run_with(&conv, None, false);
+                if k % 3 == 2 && o.offers_refused != 1 {
+                    ex.fail("c15-wire-null-accepted", format!("NULL offered to a NOT NULL column was not refused ({:?})", o.offers_accepted));
+                    return ex;
+                }
                 let refused = o.calls.iter().any(|c| !c.ok) || o.result.is_panic();
                 if refused {
                     // must not have been refused if the model says it must be accepted
@@ -346,7 +358,7 @@ impl Prop for C15 {
                     return ex;
                 }
                 let got = match d.replies.get(1).map(|r| &r.units[..]) {
-                    Some([Unit::Set { rows: Rows::Bin(r), .. }]) if r.len() == 1 && r[0].len() == 2 => match &r[0][1] {
+                    Some([.., Unit::Set { rows: Rows::Bin(r), .. }]) if r.len() == 1 && r[0].len() == 2 => match &r[0][1] {
                         BinVal::Int(i) => Some(*i as i128),
                         BinVal::UInt(u) => Some(*u as i128),
                         _ => None,
